@@ -23,5 +23,9 @@ for _f in sorted(_glob.glob(_os.path.join(_os.path.dirname(_os.path.abspath(__fi
     _pid = _os.path.basename(_f)[:-3]
     _spec = _ilu.spec_from_file_location('props_d_' + _pid, _f)
     _m = _ilu.module_from_spec(_spec)
-    _spec.loader.exec_module(_m)
-    PROPS[_pid] = _m.PROP
+    try:
+        _spec.loader.exec_module(_m)
+        PROPS[_pid] = _m.PROP
+    except Exception as _e:  # a half-written props file must not break the other checks
+        import sys as _sys
+        print('WARNING: cannot load %s: %r' % (_f, _e), file=_sys.stderr)
